@@ -28,7 +28,6 @@ import (
 	"github.com/DrmagicE/gmqtt/persistence/queue"
 	"github.com/DrmagicE/gmqtt/persistence/subscription"
 	"github.com/DrmagicE/gmqtt/persistence/unack"
-	"github.com/DrmagicE/gmqtt/pkg/bitmap"
 	"github.com/DrmagicE/gmqtt/pkg/codes"
 	"github.com/DrmagicE/gmqtt/pkg/packets"
 )
@@ -1188,7 +1187,7 @@ func (client *client) pubackHandler(puback *packets.Puback) *codes.Error {
 	if err != nil {
 		return converError(err)
 	}
-	client.pl.release(puback.PacketID)
+	client.pl.releaseAcked(puback.PacketID)
 	if ce := zaplog.Check(zapcore.DebugLevel, "unset inflight"); ce != nil {
 		ce.Write(zap.String("clientID", client.opts.ClientID),
 			zap.Uint16("pid", puback.PacketID),
@@ -1208,7 +1207,7 @@ func (client *client) pubrelHandler(pubrel *packets.Pubrel) *codes.Error {
 func (client *client) pubrecHandler(pubrec *packets.Pubrec) {
 	if client.version == packets.Version5 && pubrec.Code >= codes.UnspecifiedError {
 		err := client.queueStore.Remove(pubrec.PacketID)
-		client.pl.release(pubrec.PacketID)
+		client.pl.releaseAcked(pubrec.PacketID)
 		if err != nil {
 			client.setError(err)
 		}
@@ -1227,7 +1226,7 @@ func (client *client) pubrecHandler(pubrec *packets.Pubrec) {
 }
 func (client *client) pubcompHandler(pubcomp *packets.Pubcomp) {
 	err := client.queueStore.Remove(pubcomp.PacketID)
-	client.pl.release(pubcomp.PacketID)
+	client.pl.releaseAcked(pubcomp.PacketID)
 	if err != nil {
 		client.setError(err)
 	}
@@ -1434,14 +1433,7 @@ func (client *client) readHandle() {
 }
 
 func (client *client) newPacketIDLimiter(limit uint16) {
-	client.pl = &packetIDLimiter{
-		cond:      sync.NewCond(&sync.Mutex{}),
-		used:      0,
-		limit:     limit,
-		exit:      false,
-		freePid:   1,
-		lockedPid: bitmap.New(packets.MaxPacketID),
-	}
+	client.pl = newPacketIDLimiter(limit)
 }
 
 func (client *client) pollInflights() (cont bool, err error) {
@@ -1484,12 +1476,18 @@ func (client *client) pollNewMessages(ids []packets.PacketID) (unused []packets.
 		return nil, err
 	}
 	now := time.Now()
+	used := 0
+	for _, v := range elems {
+		if m, ok := v.MessageWithID.(*queue.Publish); ok && m.QoS != packets.Qos0 {
+			used++
+		}
+	}
+	// the ids of the messages which are about to be sent are the client's to acknowledge from now on
+	client.pl.commit(ids[:used])
+	ids = ids[used:]
 	for _, v := range elems {
 		switch m := v.MessageWithID.(type) {
 		case *queue.Publish:
-			if m.QoS != packets.Qos0 {
-				ids = ids[1:]
-			}
 			client.write(client.publishWithRemainingExpiry(m.Message, v.At, now))
 		case *queue.Pubrel:
 		}
